@@ -141,6 +141,9 @@ func (dm *DMap) deleteKey(key string) error {
 
 	f.Lock()
 	defer f.Unlock()
+	if err := verifhook.Fire("delete.locked", dm.s.rt.This().String(), hkey); err != nil {
+		return err
+	}
 
 	// Check the HKey before trying to delete it.
 	if !f.storage.Check(hkey) {
